@@ -252,6 +252,152 @@ mod k {
         Ray { origin: point![any_coord(), any_coord(), any_coord()], dir: d }
     }
 
+
+    // ---- C10 / C11: classes of an element (wall) ---------------------------------------------------
+    fn wall_with(tilt: f32, azimuth: f32) -> crate::Wall {
+        crate::Wall {
+            id: crate::Uuid::nil(),
+            name: String::new(),
+            bounds: crate::BoundaryType::EXTERIOR,
+            cons: crate::Uuid::nil(),
+            space: crate::Uuid::nil(),
+            next_to: None,
+            geometry: crate::WallGeom { tilt, azimuth, position: None, polygon: vec![] },
+        }
+    }
+
+    // an element is classed horizontal (skylight / floor) unless its tilt class is SIDE, where the compass class of
+    // its azimuth applies
+    #[kani::proof]
+    fn c10_orientation_of_wall() {
+        let tilt = any_f32_in(0.0, 360.0);
+        let az = any_f32_in(-180.0, 180.0);
+        kani::cover!(true, "precondition satisfiable");
+        let w = wall_with(tilt, az);
+        let o = Orientation::from(&w);
+        let t = Tilt::from(&w);
+        assert!(t == Tilt::from(tilt), "C10.wall.tilt_class");
+        if t == Tilt::SIDE {
+            assert!(o == Orientation::from(az), "C10.wall.side_uses_azimuth");
+        } else {
+            assert!(o == Orientation::HZ, "C10.wall.horizontal");
+        }
+    }
+
+    // ---- C11: polygon area on integer coordinates is the exact shoelace value -------------------------
+    use crate::types::HasSurface;
+
+    fn any_grid() -> (i32, f32) {
+        let v: i8 = kani::any();
+        kani::assume(v >= -100 && v <= 100);
+        (v as i32, v as f32)
+    }
+
+    #[kani::proof]
+    #[kani::unwind(6)]
+    fn c11_poly_area_triangle() {
+        let (x0, fx0) = any_grid();
+        let (y0, fy0) = any_grid();
+        let (x1, fx1) = any_grid();
+        let (y1, fy1) = any_grid();
+        let (x2, fx2) = any_grid();
+        let (y2, fy2) = any_grid();
+        let p: crate::Polygon = vec![point![fx0, fy0], point![fx1, fy1], point![fx2, fy2]];
+        let twice = (x0 * y1 - y0 * x1) + (x1 * y2 - y1 * x2) + (x2 * y0 - y2 * x0);
+        let twice = if twice < 0 { -twice } else { twice };
+        kani::cover!(twice > 0, "non-degenerate triangle reachable");
+        let a = p.area();
+        assert!(a == (twice as f32) * 0.5, "C11.poly.area.exact");
+        assert!(a >= 0.0, "C11.poly.area.nonneg");
+        // cyclic shift and reversal
+        let q: crate::Polygon = vec![point![fx1, fy1], point![fx2, fy2], point![fx0, fy0]];
+        let r: crate::Polygon = vec![point![fx2, fy2], point![fx1, fy1], point![fx0, fy0]];
+        assert!(q.area() == a && r.area() == a, "C11.poly.area.shift_reverse");
+    }
+
+    #[kani::proof]
+    #[kani::unwind(4)]
+    fn c11_poly_degenerate() {
+        let (_, fx0) = any_grid();
+        let (_, fy0) = any_grid();
+        let p0: crate::Polygon = vec![];
+        let p1: crate::Polygon = vec![point![fx0, fy0]];
+        assert!(p0.area() == 0.0 && p1.area() == 0.0, "C11.poly.area.fewer_than_two");
+        assert!(p0.perimeter() == 0.0 && p1.perimeter() == 0.0, "C11.poly.perimeter.fewer_than_two");
+    }
+
+    // ---- C13: slab test of the box on integer data -----------------------------------------------------
+    // For boxes with integer corners and rays with integer origins and direction components in {-1,0,1} (un-normalised
+    // Ray, so every product is exact), AABB::intersects is Some exactly when the exact slab test succeeds
+    // (grazing rays - parallel to a face and starting in its plane, or touching only an edge - excluded).
+    fn any_small() -> (i32, f32) {
+        let v: i8 = kani::any();
+        kani::assume(v >= -20 && v <= 20);
+        (v as i32, v as f32)
+    }
+
+    fn any_dir() -> (i32, f32) {
+        let v: i8 = kani::any();
+        kani::assume(v >= -1 && v <= 1);
+        (v as i32, v as f32)
+    }
+
+    #[kani::proof]
+    fn c13_aabb_slab_exact() {
+        let (lx, flx) = any_small();
+        let (ly, fly) = any_small();
+        let (lz, flz) = any_small();
+        let (hx, fhx) = any_small();
+        let (hy, fhy) = any_small();
+        let (hz, fhz) = any_small();
+        kani::assume(lx < hx && ly < hy && lz < hz);
+        let (ox, fox) = any_small();
+        let (oy, foy) = any_small();
+        let (oz, foz) = any_small();
+        let (dx, fdx) = any_dir();
+        let (dy, fdy) = any_dir();
+        let (dz, fdz) = any_dir();
+        kani::assume(dx != 0 || dy != 0 || dz != 0);
+        // exact slab test with integer arithmetic (t scaled by 1: directions are -1, 0, 1)
+        let mut tmin: i32 = -1000;
+        let mut tmax: i32 = 1000;
+        let mut miss = false;
+        let mut grazing = false;
+        let lo = [lx, ly, lz];
+        let hi = [hx, hy, hz];
+        let o = [ox, oy, oz];
+        let d = [dx, dy, dz];
+        let mut k = 0;
+        while k < 3 {
+            if d[k] == 0 {
+                if o[k] < lo[k] || o[k] > hi[k] {
+                    miss = true;
+                }
+                if o[k] == lo[k] || o[k] == hi[k] {
+                    grazing = true;
+                }
+            } else {
+                let t1 = (lo[k] - o[k]) * d[k];
+                let t2 = (hi[k] - o[k]) * d[k];
+                let (a, b) = if t1 < t2 { (t1, t2) } else { (t2, t1) };
+                if a > tmin {
+                    tmin = a;
+                }
+                if b < tmax {
+                    tmax = b;
+                }
+            }
+            k += 1;
+        }
+        kani::assume(!grazing);
+        kani::assume(miss || tmin != tmax);
+        let want = !miss && tmax >= 0 && tmin <= tmax;
+        kani::cover!(want, "hit reachable");
+        kani::cover!(!want, "miss reachable");
+        let b = AABB::new(point![flx, fly, flz], point![fhx, fhy, fhz]);
+        let ray = Ray { origin: point![fox, foy, foz], dir: vector![fdx, fdy, fdz] };
+        assert!(b.intersects(&ray).is_some() == want, "C13.aabb.slab.exact");
+    }
 }
 
 // =====================================================================================================
